@@ -31,7 +31,8 @@ structure Pfx where
   len : Nat
   deriving DecidableEq, Repr
 
-def Pfx.Valid (p : Pfx) : Prop := p.len ≤ p.fam.maxLen ∧ p.bits < 2 ^ p.len
+/-- the length is one the address family has -/
+def Pfx.Valid (p : Pfx) : Prop := p.len ≤ p.fam.maxLen
 
 instance (p : Pfx) : Decidable p.Valid := by unfold Pfx.Valid; infer_instance
 
@@ -174,6 +175,10 @@ inductive Outcome (α : Type) where
   | panic (k : PanicKind)   -- the thread unwinds
   | diverge                 -- unbounded filter-set recursion (fuel exhausted)
 
+def Outcome.isOk {α} : Outcome α → Bool
+  | .ok _ => true
+  | _ => false
+
 def Outcome.map {α β} (f : α → β) : Outcome α → Outcome β
   | .ok a => .ok (f a)
   | .err e => .err e
@@ -203,11 +208,15 @@ structure Resolvers (σ ω : Type) where
   autNum : Nat → M σ ω PSet
   peerAs : M σ ω PSet
 
+/-- `apply(prefix, op)` on one `<prefix><op>` member, errors sunk: the range it contributes, if any -/
+def memberRange (op : RangeOp) (p : Pfx) : Option Range :=
+  match applyRange op (Range.ofPfx p) with
+  | some (some r) => some r
+  | _ => none
+
 /-- `Evaluate for PrefixSetExpr::Literal`: `collect_results(filter_map(apply(prefix, op)))` -/
 def litSet (ms : List (Pfx × RangeOp)) : PSet :=
-  PSet.ofRanges (ms.filterMap fun (p, op) => match applyRange op (Range.ofPfx p) with
-    | some (some r) => some r
-    | _ => none)
+  PSet.ofRanges (ms.filterMap fun m => memberRange m.2 m.1)
 
 /-- `Evaluate for NamedPrefixSet` (eval/mod.rs:150-158) -/
 def evalNamed {σ ω} (R : Resolvers σ ω) : Named → M σ ω PSet
